@@ -75,7 +75,7 @@ func runL3(t testing.TB, c l3Case) (Verdict, string) {
 
 // TestC18Binary: accepted configurations through the real binary.
 func TestC18Binary(t *testing.T) {
-	sub := lab.Sub("accepted-starts-or-fails-clearly", "rapid: configurations in which every documented constraint holds (plugin numbers typed int/float/string, TLS enabled with the repository's sample certificate or with missing files, "+
+	sub := lab.Sub("accepted-starts-or-fails-clearly", "rapid: configurations in which every documented constraint holds (plugin numbers typed int/float/string, chain entries of any built-in plugin with config absent / null / {}, TLS enabled with the repository's sample certificate or with missing files, "+
 		"all features in all modes) started as the real helios binary with free ports substituted and a live httptest backend; 20% of the cases with two enabled listeners give them the same port; "+
 		"oracle: either the process exits non-zero with a fatal error line and no panic trace, or the proxy port serves a request through to the backend AND every enabled ancillary listener (metrics path, admin /v1/health) answers; "+
 		"anything else (no decision, listener missing, request not served) is a violation; non-trivial = >= 2 of {metrics, admin_api, TLS, plugins with typed options, active health checks, rate limit, circuit breaker} enabled")
@@ -131,6 +131,9 @@ func TestC18Binary(t *testing.T) {
 		if hasStringTyped(m) {
 			labels = append(labels, "string-typed-plugin-number")
 		}
+		if HasBare(m) {
+			labels = append(labels, "bare-plugin-config")
+		}
 		if m.Metrics.Mode == Enabled {
 			labels = append(labels, "metrics-on")
 		}
@@ -147,7 +150,7 @@ func TestC18Binary(t *testing.T) {
 		case "exit":
 			// allowed only for a reason: with documented forms only, real certificate files and distinct
 			// ports nothing prevents a start — "every documented form is accepted"
-			if !hasStringTyped(m) && !(m.TLS.Mode == Enabled && c.Certs == "missing") && c.Share == "" && !strings.Contains(v.Log, "address already in use") {
+			if !hasStringTyped(m) && !BareNeedsConfig(m) && !(m.TLS.Mode == Enabled && c.Certs == "missing") && c.Share == "" && !strings.Contains(v.Log, "address already in use") {
 				rt.Fatalf("an accepted configuration that uses only documented forms did not start: %s\nlog:\n%s\nconfig:\n%s", v.Detail, v.Log, text)
 			}
 		}
